@@ -1,5 +1,6 @@
 """C06 - boundary normals are finite outward unit vectors."""
 import json
+from ..pipeline import geo_sig
 from . import c05
 
 RULE = ("boundaries of all primitives of the pool (slanted, clockwise, parameter-dependent; interval; spheres) and of "
@@ -24,7 +25,7 @@ def run(ctx):
         if ctx.quick:
             prim = [s for s in scen if s["expr"]["k"] not in ("union", "cut", "and")]
             rest = [s for s in scen if s["expr"]["k"] in ("union", "cut", "and")]
-            scen = prim + rest[ctx.seed % 3::3]
+            scen = prim + ctx.stratified(rest, 1.0 / 3, key=lambda s: geo_sig(s["expr"], False))
     traces = ctx.drive("c06", scen, timeout=3000)
     ctx.validate("Trace_C06", traces, timeout=3000)
     ctx.rule = RULE
